@@ -258,6 +258,7 @@ func readSVG(svg []byte, d *d2target.Diagram) (*c29svg, error) {
 		conns[c.ID] = c
 	}
 	out := &c29svg{skipped: map[string]int{}}
+	shadowDone := map[string]bool{}
 	type ctx struct {
 		name     string
 		excluded bool
@@ -470,7 +471,13 @@ func readSVG(svg []byte, d *d2target.Diagram) (*c29svg, error) {
 			what := "<" + name + ">"
 			out.items = append(out.items, drawn{ext: e, kind: kind, obj: c.obj, what: what})
 			if c.shadow && kind == "outline" {
-				out.items = append(out.items, drawn{ext: e.shift(out.shadowDX, out.shadowDY), kind: "shadow", obj: c.obj, what: what + " shadow"})
+				// the shadow clause is decided for the shape box itself (Pos, Width, Height, half the stroke), shifted by
+				// the filter's feOffset; shadows cast by the 3d / multiple extensions are not counted
+				if sh, ok := shapes[c.obj]; ok && !shadowDone[c.obj] {
+					shadowDone[c.obj] = true
+					b := ext{float64(sh.Pos.X), float64(sh.Pos.Y), float64(sh.Pos.X + sh.Width), float64(sh.Pos.Y + sh.Height)}.grow(float64(sh.StrokeWidth) / 2)
+					out.items = append(out.items, drawn{ext: b.shift(out.shadowDX, out.shadowDY), kind: "shadow", obj: c.obj, what: "shadow of the shape box"})
+				}
 			}
 		}
 	}
@@ -671,7 +678,7 @@ func init() {
 		ID: "C29", Level: "exploration",
 		Rule: "diagrams = base `a` (or `a -> b` when a connection decoration is present) plus ≤ 2 statements of a 98-statement decoration alphabet (12 shape types, label.near × every position of d2ast.LabelPositionsArray, icon and icon.near × every position, 3d / multiple / shadow / double-border, stroke widths 0/9/15, border radius, font size, empty and long label, narrow width, a child, direction, connection label, both arrowhead labels, connection stroke width, arrowhead shape), each compiled + laid out (dagre) by d2lib.Compile and rendered by d2svg.Render with the phase's padding; the extent of every primitive the SVG draws for an object or connection is computed from the SVG itself and compared with Diagram.BoundingBox(), and the SVG viewBox with the bounding box grown by the padding; non-trivial = at least one primitive compared; ordered pairs of distinct statements are distinct diagrams",
 		Assumptions: []string{
-			"`drawn` is read from the rendered SVG: rect / ellipse / circle / line / polygon / path (exact Bézier extents) / image / foreignObject boxes with half the stroke width added, shifted by enclosing translate() transforms; a shape group under the shadow filter is also counted shifted by the filter's feOffset (the blur radius is not counted)",
+			"`drawn` is read from the rendered SVG: rect / ellipse / circle / line / polygon / path (exact Bézier extents) / image / foreignObject boxes with half the stroke width added, shifted by enclosing translate() transforms; for a shape under the shadow filter the shape box (Pos, Width, Height, half the stroke) shifted by the filter's feOffset is counted as well (not the blur radius, not the shadows cast by 3d / multiple extensions)",
 			"plain-text labels are boxes of the measured LabelWidth×LabelHeight centred on the <text> anchor with the top at baseline − font-size (the convention d2svg uses); texts inside class / sql_table / code bodies count as their anchor point only",
 			"not compared (the statement does not name them): the background rectangle, arrowhead markers, appendix (tooltip/link) icons and positioned tooltips, connection label fills; elements under a non-translate transform or using arc path commands are skipped and counted in the outcome",
 			"tolerance 1 px, because BoundingBox truncates label coordinates to integers",
